@@ -2,6 +2,7 @@ import Driver.Util
 import LiquidVerif.Model.Inherit
 import LiquidVerif.Model.InheritSpec
 import LiquidVerif.Model.InheritParse
+import LiquidVerif.Model.InheritFlat
 open Lean LiquidVerif.Inherit
 
 namespace Driver.C18
@@ -93,6 +94,31 @@ def handleEndblock (args : List Json) : Json :=
     | _, _ => jerr "bad-args"
   | _ => jerr "bad-args"
 
+/-- Liquid source of an annotation-free plain template (raise nodes print a marker) -/
+partial def srcPlain : Plain → String
+  | .text s => s
+  | .var x => "{{ " ++ x ++ " }}"
+  | .loop v n body => "{% for " ++ v ++ " in (1.." ++ toString n ++ ") %}" ++ String.join (body.map srcPlain) ++ "{% endfor %}"
+  | .scope _ body => String.join (body.map srcPlain)
+  | .outer body => String.join (body.map srcPlain)
+  | .raise e => "<!" ++ errName e ++ ">"
+
+/-- `["flatsyn", limit, [[tops]… leaf first], data]` → render of the syntactically flattened template, whether it
+is finite / hygienic, and the Liquid source of the annotation-free template -/
+def handleFlatSyn (args : List Json) : Json :=
+  match args with
+  | [lim, chain, data] =>
+    let ts := (asArr? chain).bind (mapM? (fun j => ((asArr? j).bind (mapM? parseTop)).map (fun x => (⟨x⟩ : Template))))
+    match asNat? lim, ts, parseData data with
+    | some lim, some ts, some data =>
+      let fl := flattenSyn lim ts
+      Json.mkObj [("out", outJson (renderPlains none data fl)),
+                  ("finite", Json.bool (finiteWithin lim ts)),
+                  ("hygienic", Json.bool (hygienics fl)),
+                  ("src", jstr (String.join ((eraseScopes fl).map srcPlain)))]
+    | _, _, _ => jerr "bad-args"
+  | _ => jerr "bad-args"
+
 def commands : List (String × (List Lean.Json → Lean.Json)) :=
-  [("inherit", handle), ("flatten", handleFlatten), ("endblock", handleEndblock)]
+  [("inherit", handle), ("flatten", handleFlatten), ("endblock", handleEndblock), ("flatsyn", handleFlatSyn)]
 end Driver.C18
